@@ -56,6 +56,10 @@ class Prop(common.PropertyCheck):
         for i in range(self.budget(12, 100)):
             yield {'N': rng.choice([3, 40]), 'D': rng.randrange(2, 6), 'data': ['spread', 'modal'][i % 2], 'cont': ['sample', 'sample_rfi', 'array_float', 'sample_reordered'][i % 4],
                    'chform': 'neg1', 'seed': rng.randrange(1 << 30)}
+        # positions counted from the end, every one of -1 .. -D (alone, in a one-element list, in a list with names)
+        for i in range(self.budget(30, 240)):
+            yield {'N': [3, 40][i % 2], 'D': 2 + i % 5, 'data': ['spread', 'modal'][(i // 2) % 2], 'cont': ['sample', 'array_float', 'sample_rfi', 'array_int', 'sample_reordered'][i % 5],
+                   'chform': ['negk', 'negk_list1', 'negk_mixed'][(i // 5) % 3], 'k': 1 + (i * 7) % (2 + i % 5) if i % 3 else 2 + i % 5, 'seed': rng.randrange(1 << 30)}
         # relative dispersions do not depend on the units: tiny and huge magnitudes; channels without signal (0/0 is not a number)
         for i in range(self.budget(24, 300)):
             yield {'N': rng.choice([7, 40, 400]), 'D': rng.randrange(2, 5), 'data': ['spread', 'modal', 'spread'][i % 3], 'cont': 'array_float',
@@ -172,6 +176,14 @@ class Prop(common.PropertyCheck):
             ch, cols = 0, [0]
         elif chf == 'neg1':
             ch, cols = [-1], [D - 1]              # a one-element list holding the last position counted from the end
+        elif chf in ('negk', 'negk_list1', 'negk_mixed'):
+            k = min(max(1, case['k']), D)          # position -k is column D - k; -D is the first column
+            if chf == 'negk':
+                ch, cols = -k, [D - k]
+            elif chf == 'negk_list1':
+                ch, cols = [-k], [D - k]
+            else:
+                ch, cols = [names[D - 1] if names else D - 1, -k, 0], [D - 1, D - k, 0]
         elif chf == 'name_alias':
             # the name of the last channel (which is also the $PnS label of the first one in these files)
             ch, cols = (names[D - 1] if names else D - 1), [D - 1]
@@ -196,7 +208,7 @@ class Prop(common.PropertyCheck):
             ch = [names[c] if (names and rr.random() < 0.6) else c for c in cols]
         else:
             ch, cols = [names[0] if names else 0], [0]
-        scalar = chf in ('pos', 'pos0', 'name', 'name_alias')
+        scalar = chf in ('pos', 'pos0', 'name', 'name_alias', 'negk')
         out = {'cols': [[bits(v) for v in plain[:, c]] for c in cols], 'res': {}, 'plain': {}, 'shape_ok': {}, 'scalar': scalar,
                'single_precision': bool(plain.dtype == np.float32)}
         if case.get('reuse') and isinstance(ch, list) and names:
